@@ -104,6 +104,33 @@ CHECKS = {
             "execution log and an unchanged store.",
             "overlap = strict segment-prefix relation; near misses must be accepted",
             "5/C11"),
+    "C09": ("progmc", "model_checking",
+            "explicit-state exploration of produce/read/edit/restart histories over load placements vs a program-order reference",
+            "Programs with a producer of a path (data function or keep call) and a reader that loads it in the root's body, in a helper of "
+            "the root, in a kept function's body (keep call and data function), in a helper of a kept function, and with two loads: all "
+            "histories over {producer-variable variant} x {in-process edit, restart} x entry {produce only, read only, produce then read, "
+            "read then produce, direct call of the reading data function} to depth 2-3. Values must equal the reference (latest value in "
+            "program order), the reader may execute only when the value served at the path changed, read-before-produce and never-produced "
+            "must be refused with a DDS error (the former before any body ran).",
+            "reference load = latest kept value in program order, else what earlier evaluations left",
+            "5/C09"),
+    "C14": ("progmc", "exploration",
+            "exhaustive enumeration of package depth x accepted prefix x number of accepted packages x import form x acceptance order",
+            "For module depth 2-6, an accepted prefix at every depth (the deepest puts the sibling module on the non-accepted side), 1-40 "
+            "accepted packages incl. a sibling name sharing a string prefix, three import forms and three acceptance orders: the signature "
+            "of a kept node is captured for the base program and after editing a body / a tracked variable on the accepted side (must "
+            "change, value must follow) and on the non-accepted side (must not change); a data function of a non-accepted package must be "
+            "refused with a DDS error naming the package, with nothing run.",
+            "'naming the module' = the message contains the package name",
+            "5/C14"),
+    "C15": ("progmc", "exploration",
+            "exhaustive enumeration of stage lists x composite programs x stores with a twin-store differential oracle",
+            "Composite programs (<= 3 kept nodes, also entered through a kept top-level function) x every prefix of the stage order in four "
+            "spellings + four invalid lists x stores x {fresh, populated}: a run without EVAL must run nothing, write nothing, commit "
+            "nothing; a run without PATH_COMMIT must leave every path; a later full evaluation must compute the same signatures, return "
+            "the same values and leave the same paths as on a twin store that never saw the restricted run, executing only absent nodes.",
+            "the empty stage list counts as a restricted run",
+            "5/C15"),
 }
 
 NOT_YET = {}
